@@ -38,6 +38,11 @@ for cfg, which in CONES:
         if prev:
             g = set(prev["guards"]) & g   # guards common to all configurations
         rows[key] = {"basis": hit[0], "reason": hit[1], "guards": sorted(g), "callers": hit[2]}
+        if hit[0] == "input-shape" and fn in F.fns and F.fns[fn].argc > 0 and "{closure" not in fn:
+            ca = a7.call_args_of(F, fn)
+            prevca = (prev or {}).get("call_args")
+            # the same function is audited in several configurations: every reviewed call site is allowed
+            rows[key]["call_args"] = sorted(set(ca) | set(prevca or []))     # union over the configurations
 json.dump(rows, open(os.path.join(os.path.dirname(__file__), "..", "rules", "a7_rows.json"), "w"), indent=0, sort_keys=True)
 print(f"rows: {len(rows)}  unmatched: {len(unmatched)}")
 for k, loc in sorted(unmatched.items(), key=lambda kv: kv[1]):
